@@ -25,11 +25,11 @@ RULE = ('unit: every option of the registry (discovered at run time) x generated
 ASSUMPTIONS = [
     'the DRM selection is compared as a mapping system -> set of locations (list order is not meaningful)',
     'URL text -> value uses the same decoding a query-string parser applies (urllib.parse.parse_qsl)',
-    'verr/aerr/vcorrupt are compared after the documented time->segment translation only for number-form positions',
+    'verr/aerr/vcorrupt: number-form positions are compared as values; time-of-day positions are compared with the number of the segment live at that time (elapsed since availabilityStartTime * timescale // nominal segment duration of the first Representation of the AdaptationSet, nominal = mean of all but the last stored segment); positions within 1.5 s of the window edge are not judged',
     'availabilityStartTime/timeShiftBufferDepth are compared with the values the manifest resolved (it writes the resolved values into the URLs)',
     'shims + werkzeug test client as HTTP boundary',
 ]
-REQUIRED_COUNTERS = ['int.defaults_compared', 'unit.roundtrips', 'unit.options', 'int.media_requests', 'int.fields_compared',
+REQUIRED_COUNTERS = ['int.time_positions_compared', 'int.defaults_compared', 'unit.roundtrips', 'unit.options', 'int.media_requests', 'int.fields_compared',
                      'int.usage_checked', 'reach.calculate_cgi_parameters', 'reach._generate_parameters_dict',
                      'reach.append_cgi_params', 'reach.convert_options']
 
@@ -228,6 +228,22 @@ def gen_manifest_case(ctx: ShardCtx) -> dict:
         # values that switch a saved per-stream default off again, or replace it
         extras += [('events', 'none'), ('bugs', 'none'), ('playready__la_url', 'none'), ('events', ''),
                    ('bugs', ''), ('depth', rng.choice(['1800', '2400', '60'])), ('events', 'none'), ('bugs', 'none')]
+    if mode == 'live':
+        # positions given as a time of day: the manifest translates them into the number of the segment that
+        # is live at that time on the day of availabilityStartTime, per Period and media type
+        def tod() -> str:
+            return (now - datetime.timedelta(seconds=rng.choice([2, 5, 9, 14, 22, 47, 200]))).strftime('%H:%M:%SZ')
+        extras += [('verr', f'404={tod()}'), ('aerr', f'503={tod()}'), ('aerr', f'404={tod()},503={tod()}'),
+                   ('vcorrupt', tod()), ('vcorrupt', f'{tod()},{tod()}')]
+        if rng.random() < 0.5:
+            params['start'] = rng.choice(['today', 'today', 'epoch', 'month'])
+        elif rng.random() < 0.3:
+            # an explicit start that is not in the past for the manifest's clock (the server moves it back by
+            # whole days): in the future, or younger than the clock drift asked for
+            ahead = rng.choice([20, 3600, 86400 + 7, -20, -45])
+            params['start'] = W.isoz((now + datetime.timedelta(seconds=ahead)).replace(microsecond=0))
+            if ahead < 0:
+                params['drift'] = rng.choice(['60', '30', '100'])
     for k, v in rng.sample(extras, rng.randrange(1, 5)):
         if k.startswith(('playready', 'marlin', 'clearkey', 'bugs')) and 'drm' not in params:
             if manifest in DRM_TEMPLATES and mode != 'odvod':
@@ -235,7 +251,45 @@ def gen_manifest_case(ctx: ShardCtx) -> dict:
         if k.startswith(('ping__', 'scte35__')):
             params.setdefault('events', k.split('__')[0])
         params[k] = v
-    return {'manifest': manifest, 'mode': mode, 'params': params, 'now': now.isoformat(), 'stream': stream}
+    route = 'dash'
+    if manifest == 'hand_made.mpd' and mode != 'odvod' and rng.random() < 0.35:
+        # Periods over streams with different audio timing (44.1 kHz / 48 kHz)
+        route, stream = 'mps', rng.choice(['c07mps', 'c07spm'])
+    return {'manifest': manifest, 'mode': mode, 'params': params, 'now': now.isoformat(), 'stream': stream,
+            'route': route}
+
+
+def nominal_timing(sf) -> tuple[int, int]:
+    """(timescale, nominal segment duration) of a stored file: the mean duration of all but its last segment"""
+    first = sf.segments[0].tfdt or 0
+    last_start = first + sum(x.duration for x in sf.segments[:-1])
+    return sf.timescale, (last_start - first) // (len(sf.segments) - 1)
+
+
+def translate_positions(text: str, now, ast, depth: int, ts: int, seg_dur: int) -> list[str] | None:
+    """The documented meaning of error/corruption positions: a number is taken as it is; a time of day names
+    the segment that is live at that time on the day of availabilityStartTime (number = elapsed * timescale //
+    nominal segment duration), and is dropped when it lies before the time-shift window.
+    None = too close to the window edge to call."""
+    from fractions import Fraction
+    out = []
+    for item in text.split(','):
+        code, _, pos = item.rpartition('=')
+        if ':' not in pos:
+            out.append(item)
+            continue
+        hh, mm, ss = pos.rstrip('Z').split(':')
+        tm = ast.replace(hour=int(hh), minute=int(mm), second=int(float(ss)), microsecond=ast.microsecond)
+        edge = now - datetime.timedelta(seconds=depth)
+        if abs((tm - edge).total_seconds()) < 1.5:
+            return None
+        if tm < edge:
+            continue
+        if tm < ast:
+            return None         # before the stream began: no segment is live at that time
+        n = int(Fraction(int((tm - ast).total_seconds() * 10**6), 10**6) * ts / seg_dur)
+        out.append(f'{code}={n}' if code else f'{n}')
+    return out
 
 
 def run_integration(ctx: ShardCtx, res: ShardResult) -> None:
@@ -250,6 +304,16 @@ def run_integration(ctx: ShardCtx, res: ShardResult) -> None:
         env.add_fixture_stream('bbb')
         env.add_fixture_stream('tears')
         env.add_defaults_stream()
+        from dlv.mps import add_mps_db
+        from dlv.livewalk import StoredIndex
+        p_bbb = {'pid': 'p1', 'stream': 'bbb', 'start': 4, 'duration': 24,
+                 'tracks': [('video', 1, 'main'), ('audio', 2, 'main'), ('text', 4, 'main')]}
+        p_tears = {'pid': 'p2', 'stream': 'tears', 'start': 8, 'duration': 32,
+                   'tracks': [('video', 1, 'main'), ('audio', 2, 'main')]}
+        add_mps_db(env, 'c07mps', [p_bbb, p_tears], title='bbb then tears')
+        add_mps_db(env, 'c07spm', [dict(p_tears, pid='p1'), dict(p_bbb, pid='p2')], title='tears then bbb')
+        index = StoredIndex(env)
+        by_name = {name: sf for (_d, name), sf in index.files.items()}
         client = env.client()
         cgi_map = OptionsRepository.get_cgi_map()
         by_full = {}
@@ -264,7 +328,7 @@ def run_integration(ctx: ShardCtx, res: ShardResult) -> None:
         for i in range(n):
             case = gen_manifest_case(ctx)
             env.clock.set(datetime.datetime.fromisoformat(case['now']))
-            url = f"/dash/{case['mode']}/{case['stream']}/{case['manifest']}" + qs(case['params'])
+            url = f"/{case.get('route', 'dash')}/{case['mode']}/{case['stream']}/{case['manifest']}" + qs(case['params'])
             rec.take()
             r = env.get(url, client=client)
             res.evaluations += 1
@@ -290,6 +354,10 @@ def run_integration(ctx: ShardCtx, res: ShardResult) -> None:
                 continue
             res.count('int.manifests')
             seen_adp = set()
+            first_audio: dict[int, object] = {}
+            for period, rep in doc.all_reps():
+                if rep.content_type == 'audio':
+                    first_audio.setdefault(id(period), rep)
             for period, rep in doc.all_reps():
                 adp_key = id(rep.adaptation_element)
                 if adp_key in seen_adp:
@@ -360,6 +428,52 @@ def run_integration(ctx: ShardCtx, res: ShardResult) -> None:
                             res.violation(f'option-value-differs-at-media-endpoint-{o.cgi_name}',
                                           f'{url}: {ctype} {what}: {full} = {a!r} at the manifest, {b!r} at the media '
                                           f'endpoint (URL {u})', rp)
+                    # (2b) the availability start the media endpoint obtains is the one the manifest declares
+                    if doc.type == 'dynamic':
+                        ast_doc = doc.dt('availabilityStartTime')
+                        ast_media = x_opts.get('availabilityStartTime')
+                        if ast_doc is not None and isinstance(ast_media, datetime.datetime):
+                            res.count('int.ast_compared')
+                            if ast_media != ast_doc:
+                                res.violation('media-endpoint-start-differs-from-declared-availability-start',
+                                              f'{url}: MPD@availabilityStartTime {ast_doc.isoformat()}, the {ctype} {what} '
+                                              f'URL gives the media endpoint start={ast_media.isoformat()} ({u})', rp)
+                    # (3) positions given as a time of day arrive as the number of the segment that is live
+                    # at that time in *this* Period's media of *this* type
+                    if doc.type == 'dynamic' and rep.id in by_name:
+                        qd = dict(q)
+                        for cgi, full in (('verr', 'videoErrors'), ('aerr', 'audioErrors'), ('vcorrupt', 'videoCorruption')):
+                            given = case['params'].get(cgi)
+                            if not given or ':' not in given or (cgi_map[cgi].usage & use_of[ctype]) == 0:
+                                continue
+                            ast = doc.dt('availabilityStartTime')
+                            depth = m_opts.get('timeShiftBufferDepth')
+                            if ast is None or depth is None:
+                                continue
+                            # (the manifest's clock: drift=N asks for a manifest as it was N seconds ago)
+                            now_m = env.clock.instant - datetime.timedelta(seconds=m_opts.get('clockDrift') or 0)
+                            want = translate_positions(given, now_m, ast, int(depth), *nominal_timing(by_name[rep.id]))
+                            if want is None:
+                                res.count('int.time_positions_on_window_edge')
+                                continue
+                            res.count('int.time_positions_compared')
+                            got = [x for x in qd.get(cgi, '').split(',') if x]
+                            if sorted(got) == sorted(want):
+                                res.count('int.time_positions_identical')
+                                continue
+                            fa = first_audio.get(id(period))
+                            alt = None
+                            if ctype == 'audio' and fa is not None and fa.id != rep.id and fa.id in by_name:
+                                alt = translate_positions(given, now_m, ast, int(depth), *nominal_timing(by_name[fa.id]))
+                            if alt is not None and sorted(got) == sorted(alt):
+                                res.violation('error-time-translated-with-first-audio-sets-timing',
+                                              f'{url}: {ctype} {what} of {rep.id}: {cgi}={given} arrives as {got}; with the '
+                                              f'timing of {rep.id} it names {want} (the numbers are those of {fa.id})', rp)
+                            else:
+                                res.violation(f'time-position-names-another-segment-{cgi}',
+                                              f'{url}: period {getattr(period, "id", None)} {ctype} {what} of {rep.id}: '
+                                              f'{cgi}={given} arrives as {got}, the segments live at those times are {want} '
+                                              f'(AST {ast.isoformat()}, depth {depth})', rp)
                     res.keys.add(f'int|{case["manifest"]}|{case["mode"]}|{ctype}|' +
                                  '+'.join(sorted(k for k, _ in q)))
                     if len(res.samples) < 6:
